@@ -5,6 +5,9 @@
 //
 // case file format (whitespace separated):
 //   image <fmt:ppm|pgm|pf|pf3|pf3a|pf4> <w> <h> <outfile> <hex bytes of the pixels>
+//   bigimage <fmt> <w> <h> <outfile> <base> <mul>      pixel data = 32-bit words base + i*mul (made here: too big for hex)
+//   tracesteer <outprefix> <S> <window> <pattern>      steer the size of the saved log towards S bytes, then save after
+//                                                      EVERY further event until the log is larger than S + window
 //   trace <outfile> <processNameIndex or -1> <mainThreadRecords:0|1> <nthreads>
 //     then per thread:  thread <nameIndex or -1> <nevents>  followed by nevents events:
 //       B <name> <cat|-1> | E | I <name> <cat|-1> | C <name> <value>
@@ -17,6 +20,7 @@
 #include <iostream>
 #include <sstream>
 #include <string>
+#include <sys/stat.h>
 #include <thread>
 #include <vector>
 
@@ -64,6 +68,59 @@ static void record(const std::vector<Ev> &evs, int tname)
   }
 }
 
+static int writeAny(const std::string &fmt, const std::string &out, int w, int h, const unsigned char *block)
+{
+  if (fmt == "ppm")
+    utility::writePPM(out, w, h, (const uint32_t *)block);
+  else if (fmt == "pgm")
+    utility::writePGM(out, w, h, (const uint32_t *)block);
+  else if (fmt == "pf")
+    utility::writePFM<float>(out, w, h, (const float *)block);
+  else if (fmt == "pf3")
+    utility::writePFM<math::vec3f>(out, w, h, (const math::vec3f *)block);
+  else if (fmt == "pf3a")
+    utility::writePFM<math::vec3fa>(out, w, h, (const math::vec3fa *)block);
+  else if (fmt == "pf4")
+    utility::writePFM<math::vec4f>(out, w, h, (const math::vec4f *)block);
+  else
+    return 2;
+  return 0;
+}
+
+// event #i of a steering pattern (mirrored by steer_event() in C20_hyp.py)
+static void steerEvent(long long i, int pat)
+{
+  switch (pat % 3) {
+  case 0:
+    tracing::setCounter(NAMES[4], (uint64_t)i);
+    break;
+  case 1:
+    switch (i % 4) {
+    case 0:
+      tracing::beginEvent(NAMES[i % 12], CATS[i % 4]);
+      break;
+    case 1:
+      tracing::setCounter(NAMES[(i / 4) % 12], (uint64_t)i);
+      break;
+    case 2:
+      tracing::endEvent();
+      break;
+    default:
+      tracing::setMarker(NAMES[(i / 2) % 12], nullptr);
+      break;
+    }
+    break;
+  default:
+    tracing::setMarker(NAMES[i % 12], (i % 5) ? CATS[i % 4] : nullptr);
+    break;
+  }
+}
+static long long fileSize(const std::string &f)
+{
+  struct stat st;
+  return stat(f.c_str(), &st) == 0 ? (long long)st.st_size : -1;
+}
+
 int main(int argc, char **argv)
 {
   if (argc < 2)
@@ -71,6 +128,60 @@ int main(int argc, char **argv)
   std::ifstream in(argv[1]);
   std::string what;
   in >> what;
+  if (what == "bigimage") {
+    std::string fmt, out;
+    long long w, h;
+    unsigned long long base, mul;
+    in >> fmt >> w >> h >> out >> base >> mul;
+    const size_t pix = fmt == "ppm" || fmt == "pgm" ? 4 : fmt == "pf" ? 4 : fmt == "pf3" ? 12 : 16;
+    const size_t n = (size_t)w * (size_t)h * pix;
+    uint32_t *block = (uint32_t *)malloc(n);  // exact size
+    if (!block)
+      return 3;
+    for (size_t i = 0; i < n / 4; ++i)
+      block[i] = (uint32_t)(base + i * mul);
+    int r = writeAny(fmt, out, (int)w, (int)h, (const unsigned char *)block);
+    free(block);
+    return r;
+  }
+  if (what == "tracesteer") {
+    std::string prefix;
+    long long S, window;
+    int pat;
+    in >> prefix >> S >> window >> pat;
+    long long n = 0;
+    auto rec = [&](long long k) {
+      for (long long j = 0; j < k; ++j)
+        steerEvent(n++, pat);
+    };
+    const std::string probe = prefix + ".probe";
+    std::ofstream meta(prefix + ".meta");
+    rec(16);
+    tracing::saveLog(probe.c_str(), nullptr);
+    const long long s1 = fileSize(probe);
+    rec(48);
+    tracing::saveLog(probe.c_str(), nullptr);
+    long long s = fileSize(probe);
+    const double bpe = std::max(1.0, (double)(s - s1) / 48.0);
+    int guard = 0;
+    while (s >= 0 && s < S - window && guard++ < 200) {
+      long long k = (long long)((double)(S - window - s) / bpe * 0.9);
+      rec(std::max(1ll, k));
+      tracing::saveLog(probe.c_str(), nullptr);
+      s = fileSize(probe);
+    }
+    remove(probe.c_str());
+    int saved = 0;
+    while (s >= 0 && s <= S + window && saved < 400) {
+      rec(1);
+      const std::string f = prefix + "." + std::to_string(saved);
+      tracing::saveLog(f.c_str(), nullptr);
+      s = fileSize(f);
+      meta << saved << "\t" << n << "\t" << s << "\n";
+      ++saved;
+    }
+    return 0;
+  }
   if (what == "image") {
     std::string fmt, out, hex;
     int w, h;
@@ -84,22 +195,9 @@ int main(int argc, char **argv)
     unsigned char *block = (unsigned char *)malloc(n ? n : 1);  // exact size: overruns hit the ASan redzone
     for (size_t i = 0; i < n; ++i)
       block[i] = (unsigned char)(hexv(hex[2 * i]) * 16 + hexv(hex[2 * i + 1]));
-    if (fmt == "ppm")
-      utility::writePPM(out, w, h, (const uint32_t *)block);
-    else if (fmt == "pgm")
-      utility::writePGM(out, w, h, (const uint32_t *)block);
-    else if (fmt == "pf")
-      utility::writePFM<float>(out, w, h, (const float *)block);
-    else if (fmt == "pf3")
-      utility::writePFM<math::vec3f>(out, w, h, (const math::vec3f *)block);
-    else if (fmt == "pf3a")
-      utility::writePFM<math::vec3fa>(out, w, h, (const math::vec3fa *)block);
-    else if (fmt == "pf4")
-      utility::writePFM<math::vec4f>(out, w, h, (const math::vec4f *)block);
-    else
-      return 2;
+    int r = writeAny(fmt, out, w, h, block);
     free(block);
-    return 0;
+    return r;
   }
   if (what == "trace") {
     std::string out;
